@@ -65,7 +65,9 @@ func c04Base(variant int) gen.S {
 			"/pets/{petId}": gen.S{
 				"parameters": gen.Arr(gen.S{"name": "petId", "in": "path", "required": true, "schema": gen.S{"type": "integer"}}),
 				"get": gen.S{"operationId": "getPet", "responses": gen.S{"200": gen.S{"description": "one", "content": okJSON("#/components/schemas/Pet")}, "404": gen.S{"$ref": "#/components/responses/Error"}}},
-				"delete": gen.S{"operationId": "deletePet", "parameters": gen.Arr(gen.S{"name": "force", "in": "cookie", "schema": gen.S{"type": "boolean"}}), "responses": gen.S{"204": gen.S{"description": "gone"}}}},
+				// names are case-sensitive (outside headers) and unique per (name, in) only
+				"delete": gen.S{"operationId": "deletePet", "parameters": gen.Arr(gen.S{"name": "force", "in": "cookie", "schema": gen.S{"type": "boolean"}}, gen.S{"name": "Force", "in": "cookie", "schema": gen.S{"type": "boolean"}},
+					gen.S{"name": "force", "in": "query", "schema": gen.S{"type": "boolean"}}, gen.S{"name": "FORCE", "in": "query", "schema": gen.S{"type": "boolean"}}), "responses": gen.S{"204": gen.S{"description": "gone"}}}},
 			"/owners/{ownerId}/pets/{petId}": gen.S{
 				"put": gen.S{"operationId": "movePet", "parameters": gen.Arr(
 					gen.S{"name": "ownerId", "in": "path", "required": true, "style": "label", "schema": str()},
